@@ -22,7 +22,7 @@ structure Cx where
 structure EnvOK (cx : Cx) (env : Src.Env) : Prop where
   subst : env.subst = []
   ret : env.ret = none
-  dense : ∀ n i, env.labels.lookup n = some i → i < cx.Z
+  dense : ∀ n i, env.labels.lookup n = some i → 0 < i ∧ i < cx.Z
 
 theorem envOK_empty (cx : Cx) : EnvOK cx {} := ⟨rfl, rfl, fun n i h => by cases h⟩
 
